@@ -46,6 +46,10 @@ type outcome struct {
 	// back end answers with the scripted error (the acknowledgement was lost). From the caller's
 	// side that TryCommit failed.
 	Lands bool
+	// Shape (errs.go): what ELSE the scripted error is, besides the back end's own error value: a
+	// well-known sentinel or type in its chain, methods, a message. 0 = nothing else. The back end's
+	// verdict (Class) does not depend on it.
+	Shape int
 }
 
 func (o outcome) String() string {
@@ -57,6 +61,9 @@ func (o outcome) String() string {
 		}
 		if o.Lands {
 			s += "(landed,ack-lost)"
+		}
+		if o.Shape != 0 {
+			s += "{" + shapeName(o.Shape) + "}"
 		}
 	}
 	switch o.Writer {
@@ -329,7 +336,7 @@ func (v *vcs) GetChangeOps(context.Context) (endorse.ChangeOps, error) {
 		v.twinCommit()
 	}
 	if o.Kind == "get" && o.Class != clsNone {
-		err := &vcsErr{VCS: v.id, Attempt: v.attempt, Op: "GetChangeOps", Class: o.Class}
+		err := shaped(&vcsErr{VCS: v.id, Attempt: v.attempt, Op: "GetChangeOps", Class: o.Class}, o.Shape)
 		v.rec.add(event{VCS: v.id, Ev: "get", Err: err.Error(), Class: o.Class, Attempt: v.attempt})
 		return nil, err
 	}
@@ -390,7 +397,7 @@ func (w *workspace) fault(kind, op string) error {
 	}
 	o := w.v.cur()
 	if w.mine() && w.v.attempt == w.id && o.Kind == kind && o.Class != clsNone && (o.Nth == w.count[kind] || kind == "commit") {
-		return &vcsErr{VCS: w.v.id, Attempt: w.v.attempt, Op: fmt.Sprintf("%s#%d", op, w.count[kind]), Class: o.Class}
+		return shaped(&vcsErr{VCS: w.v.id, Attempt: w.v.attempt, Op: fmt.Sprintf("%s#%d", op, w.count[kind]), Class: o.Class}, o.Shape)
 	}
 	return nil
 }
